@@ -131,6 +131,19 @@ type zooItem struct {
 	v    any
 }
 
+// c06BoundaryStrings: texts whose last multi-byte rune straddles or follows a power-of-two offset (anything that
+// clips, chunks or buffers text at such an offset must not cut through it), uncoercible as numbers.
+func c06BoundaryStrings() []zooItem {
+	var out []zooItem
+	for _, n := range []int{16, 32, 64, 128, 256, 512, 1024, 4096, 65536} {
+		for _, tail := range []string{"é", "€", "😀"} {
+			out = append(out, zooItem{fmt.Sprintf("%d bytes then %q across the offset", n-1, tail), strings.Repeat("a", n-1) + tail})
+			out = append(out, zooItem{fmt.Sprintf("%d bytes then %q", n, tail), strings.Repeat("a", n) + tail})
+		}
+	}
+	return out
+}
+
 func c06Zoo() []zooItem {
 	i7 := 7
 	pi := &i7
@@ -143,7 +156,7 @@ func c06Zoo() []zooItem {
 	var nilIface any
 	var nilErr *zooErr
 	big := strings.Repeat("a", 1<<16)
-	return append(append(append(c06HandZoo(nilIface, nilErr, pi, ppi, psv, st, pst, ppst, big), c06PtrChains()...), c06Embeddings()...), c06Maps()...)
+	return append(append(append(c06HandZoo(nilIface, nilErr, pi, ppi, psv, st, pst, ppst, big), c06PtrChains()...), c06Embeddings()...), append(c06Maps(), c06BoundaryStrings()...)...)
 }
 
 func c06HandZoo(nilIface any, nilErr *zooErr, pi *int, ppi **int, psv *string, st zooStruct, pst *zooStruct, ppst **zooStruct, big string) []zooItem {
